@@ -1539,7 +1539,13 @@ class Tokenizer:
                         return self._handle_table_cell_end()
                     self._handle_table_cell("!!", "th", contexts.TABLE_TH_LINE)
                 elif this == "|" and self._context & contexts.TABLE_CELL_STYLE:
-                    return self._handle_table_cell_end(reset_for_style=True)
+                    if "\n" in self._text[self._stack_ident[0] : self._head]:
+                        # The cell went on to another line inside a nested node,
+                        # so this is not the end of its style attributes:
+                        self._context &= ~contexts.TABLE_CELL_LINE_CONTEXTS
+                        self._emit_text(this)
+                    else:
+                        return self._handle_table_cell_end(reset_for_style=True)
                 # on newline, clear out cell line contexts
                 elif this == "\n" and self._context & contexts.TABLE_CELL_LINE_CONTEXTS:
                     self._context &= ~contexts.TABLE_CELL_LINE_CONTEXTS
